@@ -13,7 +13,9 @@ LEVEL = "exploration"
 TECHNIQUE = ("runtime monitoring: real BallDevice/Playfield/BallController on TimeTravelLoop against an independent "
              "physical world (coil commands in, raw switch reports out); equality oracle at rest points, range "
              "invariants after every loop iteration, room check at every launch")
-RULE = ("case = generated topology (trough/plunger/lock/drain/entrance-VUK, count delays, timeouts) x physics seed "
+RULE = ("case = generated topology (trough 2-6 switches with pulse/enable coil; no/coil/mechanical/auto+manual plunger; "
+        "switch-, entrance- or hold-coil lock; drain device; playfield VUK feeding the plunger; count delays, "
+        "timeouts) x physics seed "
         "x fault schedule per device x script of game/player actions with rest points; distinct = topology kind, "
         "ball count, op-kind sequence, fault pattern; non-trivial = at least one rest point was reached with the "
         "world frozen for the full horizon and all three rest clauses were evaluated")
@@ -25,24 +27,30 @@ LEVEL_NOTE = ("Trusts the world model (vlib/c04_world.py) as a faithful envelope
 ASSUMPTIONS = [
     "all balls start in ball devices at boot (num_balls_known is then the number of balls that exist)",
     "one physical exit per device leading to one place: no diverters, no playfield transfers, one playfield",
-    "a coil pulse moves exactly one ball; no jam switches; no switch bounce shorter than the count delays",
-    "entrance-counted devices get no undetectable faults (weak eject / fall back cannot be sensed by an entrance switch)",
+    "a coil pulse / hold-coil release moves exactly one ball; no jam switches; no switch bounce shorter than the "
+    "count delays; a resting ball closes exactly one ball switch",
+    "entrance-counted devices get no undetectable faults (weak eject / fall back cannot be sensed by an entrance "
+    "switch) and two balls never pass one entrance switch at the same time (the second queues behind the first)",
     "a launched ball never arrives later than eject timeout + 0.8 x ball_missing_timeout (later = 'stray': it ends "
-    "loose on the playfield)",
-    "loose balls never enter a device that is physically full (the ball would bounce; not generated)",
-    "playfield.balls may be transiently negative by at most the number of non-idle devices (a ball launched by MPF can "
-    "be captured by another device before its eject is confirmed); persisting to a rest point is a violation",
-    "equality is only demanded when every ball device is idle after the world was frozen for H virtual seconds; a "
-    "device that is not idle then is C05's subject",
-    "ball search is left at its default (disabled)",
+    "loose on the playfield); an early fall back is back in the source and counted there before the eject timeout",
+    "a ball that reaches a device without a free slot bounces out and ends loose on the playfield; the script never "
+    "sends a loose ball into a physically full device",
+    "playfield.balls may be transiently negative by at most (devices with an eject in progress) + (balls the player "
+    "plunged less than exit_count_delay + 1.2 s ago): a ball MPF launched or has not yet missed can be captured by "
+    "another device before its eject is confirmed; persisting to a rest point is a violation",
+    "'no room' counts the target's balls that rest there for more than entrance_count_delay + 1 s plus balls MPF "
+    "itself launched towards it that are on time (a late ball which MPF may already have given up is not counted)",
+    "equality is only demanded when every ball device is idle after the world was frozen (no physical change and no "
+    "coil command) for H virtual seconds; a device that is not idle then is C05's subject",
+    "ball search is left at its default (disabled); a loose ball at a rest point sits still (no switch hits)",
 ]
 HORIZONS = {"rest_horizon_virtual_s": 200, "settle_cap_virtual_s": 4000}
 TIERS = {"quick": {"cases": 640, "batch": 10, "case_timeout": 120},
-         "thorough": {"cases": 16000, "batch": 50, "case_timeout": 120}}
+         "thorough": {"cases": 12000, "batch": 50, "case_timeout": 120}}
 MIN_EVALS = {"quick": {"rest_device_count": 1500, "rest_playfield_count": 800, "rest_conservation": 800,
                        "range": 500000, "no_room": 1000},
-             "thorough": {"rest_device_count": 40000, "rest_playfield_count": 20000, "rest_conservation": 20000,
-                          "range": 10000000, "no_room": 25000}}
+             "thorough": {"rest_device_count": 50000, "rest_playfield_count": 20000, "rest_conservation": 20000,
+                          "range": 20000000, "no_room": 20000}}
 SHRINK_KEYS = ["ops"]
 
 
